@@ -3,7 +3,7 @@
    concatenated (Style on a sub-range), then laid out (wrap, hard wrap, indent, pad, snip) and possibly
    styled again as a whole.  After every step the terminal acceptor (Term.tla) run over the text must
    be neutral at every line break and at the end, and every glyph must carry exactly the boolean
-   attributes applied to it and one of the colours applied to it.                                 *)
+   attributes applied to it and, per colour plane, the innermost colour applied to it.                                 *)
 EXTENDS Layout, Term, TLC
 CONSTANTS MaxCells, MaxStyle, MaxLayout
 VARIABLES text, exp, ns, nl
@@ -26,17 +26,17 @@ CellToks(c) == [i \in 1..Len(c.s) |-> [t |-> "sgr", p |-> Params(c.s[i])]]
 ToToks(t) == FoldLeft(LAMBDA acc, c : acc \o CellToks(c), <<>>, t)
 
 Init == /\ \E sh \in Shapes : text = Mk(sh)
-        /\ exp = [g \in GIds |-> {}] /\ ns = 0 /\ nl = 0
+        /\ exp = [g \in GIds |-> <<>>] /\ ns = 0 /\ nl = 0      \* styles applied to each glyph, innermost (earliest) first
 
 StyleRange == /\ ns < MaxStyle /\ nl = 0
               /\ \E st \in Styles, i \in 1..Len(text) : \E j \in i..Len(text) :
                    /\ text' = SubSeq(text, 1, i - 1) \o ApplyAlg(SubSeq(text, i, j), st) \o SubSeq(text, j + 1, Len(text))
-                   /\ exp' = [g \in GIds |-> IF \E q \in i..j : GName[q] = g THEN exp[g] \cup {st} ELSE exp[g]]
+                   /\ exp' = [g \in GIds |-> IF \E q \in i..j : GName[q] = g THEN Append(exp[g], st) ELSE exp[g]]
               /\ ns' = ns + 1 /\ UNCHANGED nl
 StyleAll ==   /\ ns < MaxStyle /\ nl > 0
               /\ \E st \in Styles :
                    /\ text' = ApplyAlg(text, st)
-                   /\ exp' = [g \in GIds |-> exp[g] \cup {st}]
+                   /\ exp' = [g \in GIds |-> Append(exp[g], st)]
               /\ ns' = ns + 1 /\ UNCHANGED nl
 Decor == Plain("|")
 LayoutOp ==   /\ nl < MaxLayout
@@ -51,14 +51,16 @@ Spec == Init /\ [][Next]_<<text, exp, ns, nl>>
 
 Fold == GlyphFold(ToToks(text))
 Neutral_ == NeutralAtBreaks(Fold.st) /\ NoCtl(Fold.st)
-ExpBools(S) == {Params(s)[1] : s \in {x \in S : Len(Params(x)) = 1}}
-ExpFg(S) == {SubSeq(Params(s), 3, 5) : s \in {x \in S : Len(Params(x)) = 5 /\ Params(x)[1] = 38}}
-ExpBg(S) == {SubSeq(Params(s), 3, 5) : s \in {x \in S : Len(Params(x)) = 5 /\ Params(x)[1] = 48}}
+ExpBools(S) == {Params(s)[1] : s \in {x \in Range(S) : Len(Params(x)) = 1}}
+Plane(S, p) == SelectSeq(S, LAMBDA x : Len(Params(x)) = 5 /\ Params(x)[1] = p)
+ExpFg(S) == [i \in 1..Len(Plane(S, 38)) |-> SubSeq(Params(Plane(S, 38)[i]), 3, 5)]
+ExpBg(S) == [i \in 1..Len(Plane(S, 48)) |-> SubSeq(Params(Plane(S, 48)[i]), 3, 5)]
 AttrsAsExpected ==
     \A i \in 1..Len(Fold.seen) :
        LET g == Fold.seen[i] IN
        g.id \in GIds =>
          /\ g.a.bools = ExpBools(exp[g.id])
-         /\ IF ExpFg(exp[g.id]) = {} THEN g.a.fg = <<>> ELSE g.a.fg \in ExpFg(exp[g.id])
-         /\ IF ExpBg(exp[g.id]) = {} THEN g.a.bg = <<>> ELSE g.a.bg \in ExpBg(exp[g.id])
+         \* of several colours of one plane the innermost shows
+         /\ IF ExpFg(exp[g.id]) = <<>> THEN g.a.fg = <<>> ELSE g.a.fg = ExpFg(exp[g.id])[1]
+         /\ IF ExpBg(exp[g.id]) = <<>> THEN g.a.bg = <<>> ELSE g.a.bg = ExpBg(exp[g.id])[1]
 =============================================================================
